@@ -392,6 +392,46 @@ n_loads = 0
 dir_counter = [0]
 
 
+def check_merge_mixed_keys():
+    """mappings whose keys are not all strings (element numbers next to a 'default' entry, a null key): YAML allows them and the
+    merge is defined key by key; compared with the pure reference merge (not with the Coq model, whose keys are strings)"""
+    global evaluations
+    def inject(d, depth):
+        tgt = d
+        for _ in range(depth):
+            subs = [k for k, v in tgt.items() if isinstance(v, dict)]
+            if not subs:
+                break
+            tgt = tgt[subs[int(rng.integers(0, len(subs)))]]
+        tgt["weights"] = {"default": rand_leaf(), int(rng.integers(0, 9)): rand_leaf(), int(rng.integers(10, 99)): rand_leaf()}
+        if rng.random() < 0.4:
+            tgt["weights"][None] = rand_leaf()
+        if rng.random() < 0.4:
+            tgt["weights"][2.5] = rand_leaf()
+    base, top = rand_cfg(2), rand_cfg(2)
+    inject(base, int(rng.integers(0, 3)))
+    inject(top, int(rng.integers(0, 3)))
+    b0, t0 = copy.deepcopy(base), copy.deepcopy(top)
+    want = ref_merge(b0, t0)
+    outcomes = {}
+    for nm, fn in (("Config.merge", lambda: (lambda c_: (c_.merge(copy.deepcopy(top)), dict(c_))[1])(arim.config.Config(copy.deepcopy(base)))),
+                   ("recursive_dict_merge", lambda: (lambda d_: (arim.config.recursive_dict_merge(d_, copy.deepcopy(top)), d_)[1])(copy.deepcopy(base)))):
+        try:
+            outcomes[nm] = ("ok", fn())
+        except Exception as e_:      # noqa: BLE001
+            outcomes[nm] = ("raised " + type(e_).__name__, None)
+    evaluations += 2
+    chk.count(merge_mixed_keys="int / None / float keys next to string keys")
+    def plain(x):
+        return {k: plain(v) for k, v in x.items()} if isinstance(x, dict) or hasattr(x, "items") else x
+    for nm, (st, got) in outcomes.items():
+        if st != "ok" or plain(got) != want:
+            chk.violation("merge:mixed-keys", f"{nm} on mappings with keys of several types (element numbers next to 'default') "
+                          + (st if st != "ok" else "differs from base updated by top key by key"),
+                          {"fn": nm, "base": repr(b0), "top": repr(t0), "got": repr(got), "want": repr(want)})
+            return
+
+
 def all_leaves(c, acc):
     if isinstance(c, dict):
         for v in c.values():
@@ -405,7 +445,8 @@ def run_load(k, base_mode="map", bad_fragment=False, result_dir_mode=None, filek
     """one directory.  fixed = (base, {name: fragment}) to replay a given input."""
     global evaluations, n_loads
     dir_counter[0] += 1
-    dname = dirname or str(rng.choice(["case.arim", "plain", "x.arim.arim", "UPPER.ARIM", "d.arim"]))
+    # (directory names may contain characters that are special in glob patterns: brackets, stars, question marks)
+    dname = dirname or str(rng.choice(["case.arim", "plain", "x.arim.arim", "UPPER.ARIM", "d.arim", "block[2].arim", "scan [2024] a.arim", "q?x*.arim"]))
     top = pathlib.Path(WORK) / f"c{dir_counter[0]}"
     root = top / dname
     (root / "conf.d").mkdir(parents=True) if (k > 0 or rng.random() < 0.7) else root.mkdir(parents=True)
@@ -531,6 +572,9 @@ chk.cov["corpus_cases_replayed"] = len(corpus_files)
 # aliasing (YAML anchors): the model is a tree.  With `b: *x` sharing the mapping of `a: &x {...}`, the in-place
 # merge of a fragment into `a` also changes the untouched key `b`.  Recorded as an observation (stated
 # assumption of the theorems); reported as a finding only when known_findings.txt lists the key.
+for _ in range(12 if Q else 100):
+    check_merge_mixed_keys()
+
 _ad = pathlib.Path(WORK) / "alias.arim"
 (_ad / "conf.d").mkdir(parents=True)
 (_ad / "conf.yaml").write_text("a: &x {p: 1}\nb: *x\n")
